@@ -981,7 +981,7 @@ func init() {
 		ID:       "C06",
 		Directed: c06InFlight,
 		Race:     true,
-		Cases:    func(t string) int { return map[string]int{"quick": 96, "thorough": 6000}[t] },
+		Cases:    func(t string) int { return map[string]int{"quick": 192, "thorough": 6000}[t] },
 		Run:      runC06,
 		Post:     racePost("C06"),
 		Rule: "case = one history on a fresh WithLock router: 2-4 writers (Handle with unique handler ids, Remove, Remove-all, Prefix.Clean; owned and contended patterns that split/re-merge the nodes of untouched routes and create/destroy the first-byte index) x 4-8 readers (ServeHTTP, Routes, strict/non-strict URL), yields injected through builders/middleware/interceptor/CallFunc, GOMAXPROCS in {2,4,16}; every OPTIONS/405 answer of a toggled route adds a second event (the Allow set its builder wrote, same window, linearized on its own: it must be the pattern's method set at some instant of the request, never empty); 10 directed single-goroutine schedules perform a write between lookup and handler; evaluation = one recorded client event; " +
